@@ -15,6 +15,8 @@ ROOT = Path(__file__).resolve().parent.parent
 # MATRIX_WT=<scratch git worktree of /repo HEAD>: patch that copy instead of /repo itself (same checks through
 # VERIF_ROPT_SRC), so that /repo stays free while the matrix runs; the default patches /repo.
 TREE = os.environ.get("MATRIX_WT", "/repo")
+if os.environ.get("MATRIX_WT"):  # runs against a patched scratch copy do not touch the committed evidence files
+    os.environ.setdefault("VERIF_EVIDENCE_DIR", "/tmp/verif-matrix-evidence")
 if TREE != "/repo":
     os.environ["VERIF_ROPT_SRC"] = TREE + "/src"
 # seeded changes whose clause is decided by the check of a neighbouring property (tried when the own check stays quiet)
@@ -76,7 +78,8 @@ def main() -> int:
             sh("git", "-C", TREE, "checkout", "--", ".")
             for f in (ROOT / "replays").glob("*/new-*.json"):
                 f.unlink()
-            sh("git", "-C", str(ROOT), "checkout", "--", "evidence")  # evidence must describe the unchanged tree
+            if not os.environ.get("VERIF_EVIDENCE_DIR"):
+                sh("git", "-C", str(ROOT), "checkout", "--", "evidence")  # evidence must describe the unchanged tree
         table[name] = entry
         print(name, entry["status"], entry.get("signatures"), flush=True)
         meta_path = sdir / "meta.json"
@@ -115,7 +118,8 @@ def mutants() -> int:
             sh("git", "-C", TREE, "checkout", "--", ".")
             for f in (ROOT / "replays").glob("*/new-*.json"):
                 f.unlink()
-            sh("git", "-C", str(ROOT), "checkout", "--", "evidence")
+            if not os.environ.get("VERIF_EVIDENCE_DIR"):
+                sh("git", "-C", str(ROOT), "checkout", "--", "evidence")
         print(name, table[name]["status"], table[name].get("signatures"), flush=True)
     (ROOT / "mutants" / "detection.json").write_text(json.dumps(table, indent=1, sort_keys=True) + "\n")
     print("not detected:", [n for n, e in table.items() if e["status"] != "detected"])
